@@ -440,29 +440,37 @@ def check_deferred_free(ck, P, rid):
 # --------------------------------------------------------------------------------------------------------------
 def check_early_list(ck, P, rid):
     cfg = P.config
-    # (a) matched entry is unlinked before it is released
+    # (a) matched entry is unlinked before it is released, through the very slot it was loaded from
     f = P.fn("check_early_anti_messages")
     a_frees = [c for c in f.calls("msg_allocator_free")]
-    anti = None
-    for v in f.walk():
-        if v.k == "VarDecl" and v.children and X.show(v.children[0]).startswith("*"):
-            anti = v
+    mparam = f.params[1]["name"]
+    cand = [c for c in a_frees if X.show(X.callee_args(c)[0]) != mparam]
     inst = "unlink-before-release@check_early_anti_messages"
-    if anti is None or len(a_frees) != 2:
+    if len(cand) != 1 or X.strip(X.callee_args(cand[0])[0]).k != "DeclRefExpr":
         ck.inconclusive(rid, inst, f.where, "early list walk not recognised", cfg)
     else:
-        fr = [c for c in a_frees if X.show(X.callee_args(c)[0]) == anti.name]
-        unl = [n for n in f.walk() if n.k == "BinaryOperator" and n.op == "=" and X.strip(n.children[0]).k == "UnaryOperator" and X.strip(n.children[0]).op == "*" and X.show(n.children[1]) == "%s->next" % anti.name]
-        if fr and unl and any(f.cfg.dominates(u, fr[0]) for u in unl):
-            ck.holds(rid, inst, unl[0].where, "`%s` dominates the release of the matched early anti-message" % X.show(unl[0]), cfg)
+        fr = cand[0]
+        node = X.strip(X.callee_args(fr)[0])
+        # every definition of the cursor loads it from some slot (an lvalue holding a node pointer)
+        sources = set()
+        for d in f.walk():
+            src = None
+            if d.k == "VarDecl" and d.did == node.did and d.children:
+                src = d.children[0]
+            elif d.k == "BinaryOperator" and d.op == "=" and X.strip(d.children[0]).k == "DeclRefExpr" and X.strip(d.children[0]).did == node.did:
+                src = d.children[1]
+            if src is not None:
+                sources.add(X.show(src))
+        unl = [n for n in f.walk() if n.k == "BinaryOperator" and n.op == "=" and X.show(n.children[1]) == "%s->next" % node.name and f.cfg.dominates(n, fr)]
+        if not unl:
+            ck.violated(rid, inst, fr.where, "the matched early anti-message is released while the LP's list still points to it: the next arrival walks freed memory", cfg)
         else:
-            ck.violated(rid, inst, fr[0].where if fr else f.where, "the matched early anti-message is released while the LP's list still points to it: the next arrival walks freed memory", cfg)
-        # the walk advances through the predecessor's link (so that the unlink writes the right slot)
-        adv = [n for n in f.walk() if n.k == "BinaryOperator" and n.op == "=" and X.show(n.children[1]) == "&%s->next" % anti.name]
-        if adv:
-            ck.holds(rid, "walk@check_early_anti_messages", adv[0].where, "the slot pointer follows the node being examined", cfg)
-        else:
-            ck.violated(rid, "walk@check_early_anti_messages", f.where, "the walk does not keep a pointer to the predecessor's link", cfg)
+            slot = X.show(unl[0].children[0])
+            if sources == {slot}:
+                ck.holds(rid, inst, unl[0].where, "`%s = %s->next` writes the slot the node was loaded from (%s) and dominates its release" % (slot, node.name, slot), cfg)
+            else:
+                ck.violated(rid, inst, unl[0].where, "the node is reached through %s but unlinked by writing `%s`: when it is not the first element, every early anti-message in front of it is dropped from the list (their events are never cancelled, their buffers leak)" % (
+                    sorted(sources), slot), cfg)
     # (b) an early anti-message is linked completely before it becomes the list head
     h = P.fn("handle_remote_anti_msg")
     a = h.params[1]["name"]
